@@ -6,7 +6,7 @@
   All theorems quantify over every asset universe `cfg` (arbitrary byte strings), every state reachable
   from the empty factories by any list of operations (`reach cfg St.init ops`), every argument order.
 -/
-import WW.Proofs.Factory
+import WW.Proofs.FactoryChildren
 namespace WW.C19
 open WW WW.Factory
 
@@ -206,18 +206,18 @@ theorem remove_then_create (cfg : Cfg) (r r' : PoolReg) (idx idx' : List Nat) (h
     · exact fun h => ⟨h, key, hkey', regLookup_regErase key r.reg⟩
 
 /-- the same for vaults: after `remove_vault` the vault of that asset is gone and `create_vault`
-    succeeds again (given the LP symbol derived from the label is a valid cw20 symbol, as it was the
-    first time) -/
+    succeeds again (given the LP symbol derived from the label is a valid cw20 symbol and the asset is
+    named by an address a contract answers at, as it was the first time) -/
 theorem remove_then_create_vault (cfg : Cfg) (r r' : VaultReg) (i : Nat) (a : AssetDef)
     (ha : assetOf cfg i = .ok a) (h : r.remove cfg i = .ok r')
-    (hsym : symbolOk (vaultLpSymbol a.label) = true) :
+    (hsym : symbolOk (vaultLpSymbol a.label) = true) (hlive : a.dead = false) :
     regLookup a.ref r'.reg = none ∧ ∃ r'', r'.create cfg i = .ok r'' := by
   obtain ⟨a', e, ha', _, rfl⟩ := VaultReg.remove_ok h
   rw [ha] at ha'
   cases ha'
   refine ⟨regLookup_regErase _ _, ?_⟩
   unfold VaultReg.create
-  simp [ha, regLookup_regErase, hsym, guardErr]
+  simp [ha, regLookup_regErase, hsym, hlive, guardErr]
 
 /-- on the level of whole transactions: remove, then create in the other order, on any reachable
     state — the second pair is registered again -/
@@ -337,6 +337,204 @@ theorem swap_unregistered_hop_fails (cfg : Cfg) (s : St) (hops : List (Nat × Na
   obtain ⟨c, e, he, _⟩ := (swapExec_ok ho).left_mem hp hm
   exact hn ⟨e, he⟩
 
+/-! ### registries of ANY size: a create naming a registered key changes nothing; entries keep their child -/
+
+/-- Whatever the history before (so whatever the number of entries — beyond a default page, beyond a
+    maximum page — and wherever the key sits in the listing): a create whose key has an entry is not
+    accepted and the state after it IS the state before it — no child instantiated, no entry touched.
+    Stated on the key, so it covers every spelling of the arguments that yields the key. -/
+theorem duplicate_create_rejected_any_size (cfg : Cfg) (ops : List Op) :
+    let s := reach cfg St.init ops
+    (∀ a b pt k e, keyOf cfg [a, b] = .ok k → (k, e) ∈ s.pairs.reg →
+        (∀ x, step cfg s (.createPair a b pt) ≠ .ok x) ∧ apply cfg s (.createPair a b pt) = s) ∧
+    (∀ a b c amp k e, keyOf cfg [a, b, c] = .ok k → (k, e) ∈ s.trios.reg →
+        (∀ x, step cfg s (.createTrio a b c amp) ≠ .ok x) ∧ apply cfg s (.createTrio a b c amp) = s) ∧
+    (∀ i a e, assetOf cfg i = .ok a → (a.ref, e) ∈ s.vaults.reg →
+        (∀ x, step cfg s (.createVault i) ≠ .ok x) ∧ apply cfg s (.createVault i) = s) ∧
+    (∀ i a c, assetOf cfg i = .ok a → (a.raw, c) ∈ s.incs.reg →
+        (∀ x, step cfg s (.createInc i) ≠ .ok x) ∧ apply cfg s (.createInc i) = s) := by
+  intro s
+  have hi : Inv cfg s := (Inv.init cfg).reach ops
+  refine ⟨?_, ?_, ?_, ?_⟩
+  · intro a b pt k e hk he
+    have hno : ∀ x, step cfg s (.createPair a b pt) ≠ .ok x := by
+      intro x h
+      unfold step at h
+      obtain ⟨p, hp, _⟩ := Res.bind_eq_ok.mp h
+      obtain ⟨_, key, _, hkey, hnone, _⟩ := PoolReg.create_ok hp
+      rw [hk] at hkey
+      cases hkey
+      rw [regLookup_of_mem hi.pairs.sorted he] at hnone
+      cases hnone
+    exact ⟨hno, apply_eq_of_not_ok hno⟩
+  · intro a b c amp k e hk he
+    have hno : ∀ x, step cfg s (.createTrio a b c amp) ≠ .ok x := by
+      intro x h
+      unfold step at h
+      obtain ⟨p, hp, _⟩ := Res.bind_eq_ok.mp h
+      obtain ⟨_, key, _, hkey, hnone, _⟩ := PoolReg.create_ok hp
+      rw [hk] at hkey
+      cases hkey
+      rw [regLookup_of_mem hi.trios.sorted he] at hnone
+      cases hnone
+    exact ⟨hno, apply_eq_of_not_ok hno⟩
+  · intro i a e ha he
+    have hno : ∀ x, step cfg s (.createVault i) ≠ .ok x := by
+      intro x h
+      unfold step at h
+      obtain ⟨p, hp, _⟩ := Res.bind_eq_ok.mp h
+      obtain ⟨a', ha', hnone, _⟩ := VaultReg.create_ok hp
+      rw [ha] at ha'
+      cases ha'
+      rw [regLookup_of_mem hi.vaults.sorted he] at hnone
+      cases hnone
+    exact ⟨hno, apply_eq_of_not_ok hno⟩
+  · intro i a c ha he
+    have hno : ∀ x, step cfg s (.createInc i) ≠ .ok x := by
+      intro x h
+      unfold step at h
+      obtain ⟨p, hp, _⟩ := Res.bind_eq_ok.mp h
+      obtain ⟨a', ha', hnone, _⟩ := IncReg.create_ok hp
+      rw [ha] at ha'
+      cases ha'
+      rw [regLookup_of_mem hi.incs.sorted he] at hnone
+      cases hnone
+    exact ⟨hno, apply_eq_of_not_ok hno⟩
+
+/-- the same in terms of what the registry lists: naming the assets of a listed pair / trio in ANY order,
+    the asset of a listed vault, or the LP asset a listed incentive contract reports, changes nothing -/
+theorem duplicate_create_rejected_any_spelling (cfg : Cfg) (ops : List Op) :
+    let s := reach cfg St.init ops
+    (∀ a b pt k e, (k, e) ∈ s.pairs.reg → e.assets.Perm [a, b] → apply cfg s (.createPair a b pt) = s) ∧
+    (∀ a b c amp k e, (k, e) ∈ s.trios.reg → e.assets.Perm [a, b, c] →
+        apply cfg s (.createTrio a b c amp) = s) ∧
+    (∀ k e, (k, e) ∈ s.vaults.reg → apply cfg s (.createVault e.asset) = s) ∧
+    (∀ k c i, (k, c) ∈ s.incs.reg → s.incs.kids[c]? = some i → apply cfg s (.createInc i) = s) := by
+  intro s
+  have hi : Inv cfg s := (Inv.init cfg).reach ops
+  obtain ⟨h1, h2, h3, h4⟩ := duplicate_create_rejected_any_size cfg ops
+  refine ⟨?_, ?_, ?_, ?_⟩
+  · intro a b pt k e he hp
+    exact (h1 a b pt k e (keyOf_perm cfg hp (hi.pairs.keyOk k e he)) he).2
+  · intro a b c amp k e he hp
+    exact (h2 a b c amp k e (keyOf_perm cfg hp (hi.trios.keyOk k e he)) he).2
+  · intro k e he
+    obtain ⟨a, ha, hk⟩ := hi.vaults.keyOk k e he
+    subst hk
+    exact (h3 e.asset a e ha he).2
+  · intro k c i he hc
+    obtain ⟨j, a, hj, ha, hk⟩ := hi.incs.child k c he
+    rw [hc] at hj
+    cases hj
+    subst hk
+    exact (h4 i a c ha he).2
+
+/-- One transaction, any reachable state, any operation, accepted or not: each registry is unchanged, or
+    gained ONE entry under a key that had none, pointing to the ONE newly instantiated child, or lost an
+    entry (`RegChange`). Consequences spelled out: an entry listed before is afterwards listed with the very
+    same value — the same child — or not at all; incentive entries (there is no removal) stay for good;
+    and the number of child contracts grows by one exactly when a fresh key gets its entry. -/
+theorem entry_child_never_changes (cfg : Cfg) (ops : List Op) (op : Op) :
+    let s := reach cfg St.init ops
+    let s' := apply cfg s op
+    (∀ k e, (k, e) ∈ s.pairs.reg → regLookup k s'.pairs.reg = some e ∨ regLookup k s'.pairs.reg = none) ∧
+    (∀ k e, (k, e) ∈ s.trios.reg → regLookup k s'.trios.reg = some e ∨ regLookup k s'.trios.reg = none) ∧
+    (∀ k e, (k, e) ∈ s.vaults.reg → regLookup k s'.vaults.reg = some e ∨ regLookup k s'.vaults.reg = none) ∧
+    (∀ k c, (k, c) ∈ s.incs.reg → regLookup k s'.incs.reg = some c) := by
+  intro s s'
+  have hi : Inv cfg s := (Inv.init cfg).reach ops
+  obtain ⟨c1, c2, c3, c4⟩ := apply_change cfg s op
+  refine ⟨fun k e he => c1.lookup_stable (regLookup_of_mem hi.pairs.sorted he),
+    fun k e he => c2.lookup_stable (regLookup_of_mem hi.trios.sorted he),
+    fun k e he => c3.lookup_stable (regLookup_of_mem hi.vaults.sorted he), ?_⟩
+  exact fun k c he => c4.lookup_kept (regLookup_of_mem hi.incs.sorted he)
+
+/-- an incentive entry, once listed, is listed with the same child after every further history -/
+theorem incentive_entry_kept_over_history (cfg : Cfg) (ops more : List Op) :
+    let s := reach cfg St.init ops
+    ∀ k c, (k, c) ∈ s.incs.reg → regLookup k (reach cfg s more).incs.reg = some c := by
+  intro s k c he
+  have hi : Inv cfg s := (Inv.init cfg).reach ops
+  have hl := regLookup_of_mem hi.incs.sorted he
+  clear he hi
+  generalize s = t at hl
+  induction more generalizing t with
+  | nil => exact hl
+  | cons op rest ih => exact ih _ ((apply_change cfg t op).2.2.2.lookup_kept hl)
+
+/-- A child contract is instantiated only for a key that has no entry, and becomes that key's child: after
+    any transaction the number of pair (trio / vault / incentive) contracts is what it was, or one more —
+    and then some key without an entry before has an entry now whose child is the new contract. -/
+theorem new_child_only_for_fresh_key (cfg : Cfg) (s : St) (op : Op) :
+    let s' := apply cfg s op
+    (s'.pairs.kids.length = s.pairs.kids.length ∨ (s'.pairs.kids.length = s.pairs.kids.length + 1 ∧
+        ∃ k e, regLookup k s.pairs.reg = none ∧ regLookup k s'.pairs.reg = some e ∧
+          e.child = s.pairs.kids.length)) ∧
+    (s'.trios.kids.length = s.trios.kids.length ∨ (s'.trios.kids.length = s.trios.kids.length + 1 ∧
+        ∃ k e, regLookup k s.trios.reg = none ∧ regLookup k s'.trios.reg = some e ∧
+          e.child = s.trios.kids.length)) ∧
+    (s'.vaults.kids.length = s.vaults.kids.length ∨ (s'.vaults.kids.length = s.vaults.kids.length + 1 ∧
+        ∃ k e, regLookup k s.vaults.reg = none ∧ regLookup k s'.vaults.reg = some e ∧
+          e.child = s.vaults.kids.length)) ∧
+    (s'.incs.kids.length = s.incs.kids.length ∨ (s'.incs.kids.length = s.incs.kids.length + 1 ∧
+        ∃ k c, regLookup k s.incs.reg = none ∧ regLookup k s'.incs.reg = some c ∧
+          c = s.incs.kids.length)) := by
+  intro s'
+  obtain ⟨c1, c2, c3, c4⟩ := apply_change cfg s op
+  exact ⟨c1.children, c2.children, c3.children, c4.children⟩
+
+/-- in every reachable state two entries of a registry never point to the same child, and every entry's
+    child exists -/
+theorem distinct_entries_distinct_children (cfg : Cfg) (ops : List Op) :
+    let s := reach cfg St.init ops
+    (∀ k₁ e₁ k₂ e₂, (k₁, e₁) ∈ s.pairs.reg → (k₂, e₂) ∈ s.pairs.reg → e₁.child = e₂.child → k₁ = k₂) ∧
+    (∀ k₁ e₁ k₂ e₂, (k₁, e₁) ∈ s.trios.reg → (k₂, e₂) ∈ s.trios.reg → e₁.child = e₂.child → k₁ = k₂) ∧
+    (∀ k₁ e₁ k₂ e₂, (k₁, e₁) ∈ s.vaults.reg → (k₂, e₂) ∈ s.vaults.reg → e₁.child = e₂.child → k₁ = k₂) ∧
+    (∀ k₁ c₁ k₂ c₂, (k₁, c₁) ∈ s.incs.reg → (k₂, c₂) ∈ s.incs.reg → c₁ = c₂ → k₁ = k₂) := by
+  intro s
+  obtain ⟨h1, h2, h3, h4⟩ := (ChildrenOk.init).reach (cfg := cfg) ops
+  exact ⟨h1.2, h2.2, h3.2, h4.2⟩
+
+/-- removal removes exactly the entry: after a successful `remove_pair` / `remove_trio` / `remove_vault`
+    the named key has no entry, every other key has the entry it had, and no child contract was
+    instantiated or lost -/
+theorem remove_removes_exactly_the_entry (cfg : Cfg) (s s' : St) (o : List Nat) :
+    (∀ a b k, step cfg s (.removePair a b) = .ok (s', o) → keyOf cfg [a, b] = .ok k →
+        regLookup k s'.pairs.reg = none ∧ (∀ k', k' ≠ k → regLookup k' s'.pairs.reg = regLookup k' s.pairs.reg) ∧
+        s'.pairs.kids = s.pairs.kids ∧ s'.trios = s.trios ∧ s'.vaults = s.vaults ∧ s'.incs = s.incs) ∧
+    (∀ a b c k, step cfg s (.removeTrio a b c) = .ok (s', o) → keyOf cfg [a, b, c] = .ok k →
+        regLookup k s'.trios.reg = none ∧ (∀ k', k' ≠ k → regLookup k' s'.trios.reg = regLookup k' s.trios.reg) ∧
+        s'.trios.kids = s.trios.kids ∧ s'.pairs = s.pairs ∧ s'.vaults = s.vaults ∧ s'.incs = s.incs) ∧
+    (∀ i a, step cfg s (.removeVault i) = .ok (s', o) → assetOf cfg i = .ok a →
+        regLookup a.ref s'.vaults.reg = none ∧
+        (∀ k', k' ≠ a.ref → regLookup k' s'.vaults.reg = regLookup k' s.vaults.reg) ∧
+        s'.vaults.kids = s.vaults.kids ∧ s'.pairs = s.pairs ∧ s'.trios = s.trios ∧ s'.incs = s.incs) := by
+  refine ⟨?_, ?_, ?_⟩
+  · intro a b k h hk
+    unfold step at h
+    obtain ⟨p, hp, h⟩ := Res.bind_eq_ok.mp h
+    cases h
+    obtain ⟨key, e, hkey, _, rfl⟩ := PoolReg.remove_ok hp
+    rw [hk] at hkey
+    cases hkey
+    exact ⟨regLookup_regErase _ _, fun k' hne => regLookup_regErase_ne _ (Ne.symm hne), rfl, rfl, rfl, rfl⟩
+  · intro a b c k h hk
+    unfold step at h
+    obtain ⟨p, hp, h⟩ := Res.bind_eq_ok.mp h
+    cases h
+    obtain ⟨key, e, hkey, _, rfl⟩ := PoolReg.remove_ok hp
+    rw [hk] at hkey
+    cases hkey
+    exact ⟨regLookup_regErase _ _, fun k' hne => regLookup_regErase_ne _ (Ne.symm hne), rfl, rfl, rfl, rfl⟩
+  · intro i a h ha
+    unfold step at h
+    obtain ⟨p, hp, h⟩ := Res.bind_eq_ok.mp h
+    cases h
+    obtain ⟨a', e, ha', _, rfl⟩ := VaultReg.remove_ok hp
+    rw [ha] at ha'
+    cases ha'
+    exact ⟨regLookup_regErase _ _, fun k' hne => regLookup_regErase_ne _ (Ne.symm hne), rfl, rfl, rfl, rfl⟩
+
 /-! ### non-vacuity: a concrete universe and history -/
 
 /-- three natives `a`,`b`,`c`-like denoms and one cw20 (90-byte canonical addresses abbreviated) -/
@@ -363,6 +561,24 @@ example :
     step exCfg s (.swap [(1, 0)]) = .ok (s, [0]) ∧
     step exCfg s (.swapRoute 1 2) = .err ∧
     NoGap (s.pairs.reg.map Prod.fst) := by
+  decide
+
+/-- a universe of twelve natives `[100]`, …, `[111]` -/
+def exMany : Cfg :=
+  { assets := (List.range 12).map fun i =>
+      { native := true, raw := [100 + i], ref := [100 + i], label := [117, 97, 97 + i], dec := 0 } }
+
+/-- twelve incentives, created in an order unrelated to the keys' order: more than a default page lists.
+    The key created last sorts last and is NOT on the default page, yet creating it again (and creating the
+    first one again) is refused and changes nothing; the number of children stays twelve. -/
+example :
+    let s := reach exMany St.init ([5, 11, 0, 7, 3, 9, 1, 10, 2, 8, 4, 6].map Op.createInc)
+    s.incs.reg.length = 12 ∧ s.incs.kids.length = 12 ∧
+    incsPage exMany s none none = .ok (s.incs.reg.take Gen.INCENTIVE_FACTORY_DEFAULT_LIMIT) ∧
+    (s.incs.reg.take Gen.INCENTIVE_FACTORY_DEFAULT_LIMIT).length < s.incs.reg.length ∧
+    regLookup [111] s.incs.reg = some 1 ∧
+    step exMany s (.createInc 11) = .err ∧ step exMany s (.createInc 0) = .err ∧
+    apply exMany s (.createInc 11) = s := by
   decide
 
 end WW.C19
